@@ -512,6 +512,12 @@ func (e *Env) evalSel(n *ESel) (SVal, types.Type, error) {
 				return v.F[i], s.Field(i).Type(), nil
 			}
 		}
+		for i, k := range e.fe.P.ghostKeysOf(typeKey(v.T)) {
+			g := e.fe.P.Ghosts[k]
+			if g.Name == n.Name && s.NumFields()+i < len(v.F) {
+				return v.F[s.NumFields()+i], g.Type, nil
+			}
+		}
 		return nil, nil, fmt.Errorf("no field %s in struct value %s", n.Name, v.T)
 	case IfaceV:
 		// ghost field on an interface type, keyed by the dynamic reference
